@@ -66,10 +66,20 @@ CutMessageTo(m, lim) == IF Len(m) <= lim THEN m ELSE SubSeq(m, 1, BoundaryAtOrBe
 
 HasNewline(m) == \E i \in 1..Len(m) : m[i] = 10
 
+\* input/syslogprotocol TestRecordStart: the test by which the listener tells the first line of a record from a
+\* continuation line: at least MinLen bytes, "<", one to three digits, ">1 "
+RecordStart(s) == /\ Len(s) >= MinLen /\ s[1] = 60
+                  /\ \E k \in 1..3 : /\ \A j \in 2..(k + 1) : Digit(s[j])
+                                     /\ s[k + 2] = 62 /\ s[k + 3] = 49 /\ s[k + 4] = SP
+
 \* event e recorded from one call of the real parser on line e.in
 Check(e) ==
   LET s == e.in IN
   /\ e.res # "panic"
+  \* the listener's record-start test is the reference one, and it recognises the first line of every well-formed record
+  \* (otherwise the record would be glued to the one before it)
+  /\ e.start = RecordStart(s)
+  /\ (WellFormed(s) /\ ~HasNewline(s)) => e.start
   \* every message is counted exactly once, with its byte length, as passed or dropped
   /\ (e.res = "record" => e.dPass = 1 /\ e.dPassB = Len(s) /\ e.dDrop = 0 /\ e.dDropB = 0)
   /\ (e.res = "drop"   => e.dDrop = 1 /\ e.dDropB = Len(s) /\ e.dPass = 0 /\ e.dPassB = 0)
